@@ -322,10 +322,10 @@ func goTypes(cs []Col) []reflect.Type {
 }
 
 // ReaderRows is the rows a readerfunc node produces for a shard (the meaning
-// mirrored by the Coq semantics): count = (A + shard*B) mod 40,
+// mirrored by the Coq semantics): count = (A + shard*B) mod 150,
 // row i = ((shard*7 + i*3) mod 23, i).
 func ReaderRows(n Node, shard int) [][2]int64 {
-	cnt := int(mod(n.A+int64(shard)*n.B, 40))
+	cnt := int(mod(n.A+int64(shard)*n.B, 150))
 	rows := make([][2]int64, cnt)
 	for i := range rows {
 		rows[i] = [2]int64{mod(int64(shard)*7+int64(i)*3, 23), int64(i)}
